@@ -67,6 +67,9 @@ func c18Body(c c18cfg, controlled bool, leak *map[string]int) func(w *World) {
 			w.Note("setup: %v", r.Err)
 			return
 		}
+		// a sub-path service on the same host: its TLS flags are re-synced from s1 whenever the table is rebuilt
+		w.AddTarget("sub:80")
+		w.Deploy(deployArgs("s4", []string{"sub:80"}, []string{host}, []string{"/sub"}))
 		w.RolloutDeploy("s1", []string{"ra:80"})
 		w.RolloutSet("s1", 50, []string{"v"})
 		if c.pre == "paused" {
@@ -97,6 +100,9 @@ func c18Body(c c18cfg, controlled bool, leak *map[string]int) func(w *World) {
 		case "plain+cookie":
 			spawn("client", func() { w.Do(ReqSpec{ID: "c-plain", Host: host}) })
 			spawn("client", func() { w.Do(ReqSpec{ID: "c-cookie", Host: host, Cookie: "kamal-rollout=v"}) })
+		case "subpath":
+			spawn("client", func() { w.Do(ReqSpec{ID: "c-sub1", Host: host, Path: "/sub/x"}) })
+			spawn("client", func() { w.Do(ReqSpec{ID: "c-sub2", Host: host, Path: "/sub/y", Plan: "delay=200ms"}) })
 		case "cookie+cookie":
 			// two opted-in clients whose values are decided by the percentage (not the allowlist)
 			spawn("client", func() { w.Do(ReqSpec{ID: "c-ck1", Host: host, Cookie: "kamal-rollout=user-1"}) })
@@ -170,7 +176,7 @@ func c18Configs(tier string) []c18cfg {
 			if j < i {
 				continue
 			}
-			for k, cl := range []string{"plain+cookie", "upgrade+plain", "slow", "cookie+cookie"} {
+			for k, cl := range []string{"plain+cookie", "upgrade+plain", "slow", "cookie+cookie", "subpath"} {
 				if tier == "quick" && (i+j+k)%3 != 0 {
 					continue
 				}
@@ -259,7 +265,7 @@ func checkC18(t *testing.T, job *Job, res *Result) {
 		res.Gen = &GenStats{Evaluations: 1}
 		return
 	}
-	res.Rule = "engine S: every unordered pair of {deploy, redeploy with other hosts/paths, rollout deploy/set/stop, pause, stop, resume, remove, list, deploy of another service, conflicting deploy} running concurrently on a service with active+rollout targets and a split, with client threads {plain+cookie, established upgrade + slow request, slow + POST, two percentage-decided cookie requests}, from running and paused; every schedule within the bounds; monitored: panic in any thread (incl. unlock of an unlocked mutex), deadlock (no thread enabled, none can be woken), hang (command or request unfinished at the horizon); engine H: every command (succeeding and failing) in every state reached by histories up to the depth bound; the data-race clause is covered by a separate free-running -race pass reported under race_pass (not exhaustive)"
+	res.Rule = "engine S: every unordered pair of {deploy, redeploy with other hosts/paths, rollout deploy/set/stop, pause, stop, resume, remove, list, deploy of another service, conflicting deploy} running concurrently on a service with active+rollout targets and a split, with client threads {plain+cookie, established upgrade + slow request, slow + POST, two percentage-decided cookie requests, requests to a sub-path service of the same host}, from running and paused; every schedule within the bounds; monitored: panic in any thread (incl. unlock of an unlocked mutex), deadlock (no thread enabled, none can be woken), hang (command or request unfinished at the horizon); engine H: every command (succeeding and failing) in every state reached by histories up to the depth bound; the data-race clause is covered by a separate free-running -race pass reported under race_pass (not exhaustive)"
 	if job.Replay == nil || job.Replay.Engine == "S" {
 		var scs []*Scenario
 		for i, c := range c18Configs(tier) {
